@@ -243,10 +243,18 @@ func buildSteps(cfg *Config) ([]dag.Step, map[string]*vexec.Script) {
 		if s.HasRetry {
 			st.RetryPolicy = &dag.RetryPolicy{Limit: s.Limit, Interval: time.Duration(s.IntervalMs) * time.Millisecond}
 		}
+		// single conditions and lists alternate with the step's position; in a list the unmet entry comes first
+		list := len(steps)%2 == 0
 		if s.Unmet {
 			st.Preconditions = []dag.Condition{{Condition: "0", Expected: "1"}}
+			if list {
+				st.Preconditions = append(st.Preconditions, dag.Condition{Condition: "1", Expected: "1"})
+			}
 		} else if s.Met {
 			st.Preconditions = []dag.Condition{{Condition: "1", Expected: "1"}}
+			if list {
+				st.Preconditions = append(st.Preconditions, dag.Condition{Condition: "1", Expected: "1"})
+			}
 		}
 		if s.Repeat {
 			st.RepeatPolicy = dag.RepeatPolicy{Repeat: true, Interval: time.Duration(s.RepeatMs) * time.Millisecond}
